@@ -254,6 +254,7 @@ def fake_iter_rule(ctx, prog):
     for b in bodies:
         if b.rec.get('impl_trait', '').endswith('Drop') or '::new' in b.name:
             continue
+        b = prog.inlined(b)         # a reload moved into a private helper (`self.load_current_block().await?`) is still a reload
         # locals that are references to self.block_iterator
         refs = {}
         for bb, st in b.stmts():
